@@ -253,6 +253,9 @@ func checkCleanDecode1(req DecodeReq, res DecodeRes, rec *h.Rec) error {
 	if res.Err != "" {
 		return h.Failf("C08:harness", "%s", res.Err)
 	}
+	if err := preJudge(res, rec); err != nil {
+		return err
+	}
 	if res.Died != "" {
 		key := rootCause(req, req.Objs[0].T, "C08:read:"+rc+":"+diedClass(res.Died), res.Died)
 		msg := fmt.Sprintf("decoding an undamaged stream of %d object(s) (first %s) killed the process: %s", len(req.Objs), req.Objs[0].T, res.Died)
